@@ -261,6 +261,23 @@ def run_suite(hbin, suite, seed, tier, scale=1, timeout=600, extra_env=None):
     return rc, out, cov, dt
 
 
+def library_crash(out):
+    """If the harness process died with a Go panic / fatal error whose dying goroutine has library frames above the
+    harness's own, return {"what": first line, "stack": excerpt}; else None."""
+    m = re.search(r"^(panic: .*|fatal error: .*)$", out, re.M)
+    if not m:
+        return None
+    tail = out[m.start():]
+    # first goroutine block after the message
+    g = re.search(r"^goroutine \d+ .*?:\n(.*?)(?:\n\n|\Z)", tail, re.M | re.S)
+    block = g.group(1) if g else tail[:4000]
+    frames = [l for l in block.splitlines() if l and not l.startswith("\t")]
+    lib_idx = [i for i, l in enumerate(frames) if "github.com/uber-go/tally/v4" in l]
+    if not lib_idx:
+        return None
+    return {"what": m.group(1)[:300], "stack": tail[:2500]}
+
+
 def load_known():
     p = os.path.join(VERIF, "known_findings.json")
     if not os.path.exists(p):
@@ -323,6 +340,19 @@ def main():
             rc, out, cov, dt = run_suite(hbin, s, seed, tier, timeout=tmo)
             log("[%s] suite %s rc=%d %.1fs %s" % (prop, s, rc, dt, out.strip().splitlines()[0] if out.strip() else ""))
             if cov is None:
+                lib = library_crash(out)
+                if lib:
+                    # the process died inside the library (unrecovered panic or a runtime fatal error such as a concurrent
+                    # map access, frames of github.com/uber-go/tally on the dying goroutine's stack): the suite, seed and
+                    # tier are a replay, so this is a concrete failing input, not merely a broken correspondence.  It is
+                    # run once more to make sure it is not a one-off of the machine.
+                    rc2, out2, cov2, dt2 = run_suite(hbin, s, seed, tier, timeout=tmo)
+                    lib2 = library_crash(out2) if cov2 is None else None
+                    if lib2:
+                        failures.append({"kind": "crash", "clause": "no-crash", "signature": "suite-%s-dies-in-library:%s" % (s, lib["what"][:80]),
+                                         "line": "suite %s seed %d tier %s (whole run; the process dies)" % (s, seed, tier), "reply": lib["what"],
+                                         "detail": lib["stack"], "suite": s, "reproduced": lib2["what"]})
+                        continue
                 crashed.append({"suite": s, "rc": rc, "out": out[-3000:]})
                 continue
             covs.append(cov)
